@@ -1,5 +1,5 @@
-(** * C13 — Compile returns SQL or an error, and rejects every documented misuse (partial). *)
-From PQL Require Import Model.Compile Proofs.TableFacts Proofs.WriterFacts.
+(** * C13 — Compile returns SQL or an error, and rejects every documented misuse. *)
+From PQL Require Import Model.Compile Spec.Rules Proofs.TableFacts Proofs.WriterFacts Proofs.RulesFacts.
 From Coq Require Import String.
 Local Open Scope list_scope.
 Local Open Scope nat_scope.
@@ -10,11 +10,38 @@ Theorem C13_ok_nonempty : forall params s ps, compile params s = COk ps -> rende
 Proof. exact compile_ok_nonempty. Qed.
 Print Assumptions C13_ok_nonempty.
 
-(** the arity checks are the documented ones *)
-Theorem C13_arities :
-  forallb (fun na => match known_func (fst na) with
-                     | Some (w, _) => arity_rule_eqb (writer_arity w) (snd na)
-                     | None => false end) documented_builtins = true
-  /\ length known_funcs = length documented_builtins.
-Proof. exact builtin_arities_documented. Qed.
+(** The rules of coq/Spec/Rules.v are written from the property text: built-ins called with the
+    documented number of arguments (at any depth), $left/$right only in join conditions, a let value
+    made of earlier bindings and constants only.  For every expression the parser can build, in every
+    position (default, join condition, let value) and however it is wrapped, the writer succeeds
+    exactly when the expression obeys them - both directions, at whatever depth the offending or the
+    harmless construct sits. *)
+Theorem C13_expression_exact : forall c e, wf_expr e = true -> forall w,
+  is_ok (wx c w e) = expr_rules (bnd (c_scope c)) (rmode_of (c_mode c)) e.
+Proof. exact wx_ok_iff_rules. Qed.
+Print Assumptions C13_expression_exact.
+
+(** the statement loop succeeds exactly when every let before the query is a closed constant
+    expression over the bindings before it and there is no second tabular statement *)
+Theorem C13_statements_exact : forall ss sc q, wf_stmts ss = true ->
+  is_ok (stmt_loop sc q ss) = stmts_rules (bnd sc) (match q with Some _ => true | None => false end) ss.
+Proof. exact stmt_loop_ok_iff_rules. Qed.
+Print Assumptions C13_statements_exact.
+
+(** the arity checks of the writers are the documented ones, for every function name *)
+Theorem C13_arities : forall n k,
+  (match known_func n with Some (w, _) => arity_ok (writer_arity w) k | None => true end) = arity_rule_ok n k.
+Proof. exact arity_documented. Qed.
 Print Assumptions C13_arities.
+
+(** every argument a built-in may take is written by its template, so an error in any argument surfaces *)
+Theorem C13_templates_cover : forall w n i, arity_ok (writer_arity w) n = true -> i < n ->
+  template_mentions (writer_template w) i = true.
+Proof. exact template_covers. Qed.
+Print Assumptions C13_templates_cover.
+
+Example C13_example :
+  let e := ECall (mkIdent (L "iff") None false) None
+                 [EQual [mkIdent (L "$left") None false; mkIdent (L "a") None false]; ELit None KNumber (L "1")] None in
+  wf_expr e = true /\ expr_rules (fun _ => false) RJoin e = false.
+Proof. vm_compute. auto. Qed.
